@@ -445,7 +445,8 @@ def exec_sums(ctx, case):
         ctx.count("volumes_under_custom_names_and_subclasses")
         if r is None:
             try:
-                a_, b_ = levels(tree), levels(G.voxel_twin(tree))
+                base_ = G.renamed(tree, -1)  # (like with like: both sides in the library's dtypes)
+                a_, b_ = levels(base_), levels(G.voxel_twin(base_))
                 r = G._same(a_, b_, "volume levels 1, 2 and the front end")
                 r = r and f"for a Tree subclass reporting its columns through get_ndata: {r}"
             except Exception as e:
